@@ -270,6 +270,53 @@ macro_rules! poly_zeros_cell {
     }};
 }
 
+/// zero-pattern family for the array coefficient forms [P; k]: every subset of the len*k parts zeroed
+macro_rules! poly_zeros_cell_a {
+    ($v:ident, $P:ty, $len:literal, $m:ident, $kind:literal, $k:literal, $xs:expr) => {{
+        let n = <$P as Fx>::N;
+        let es = <$P as Fx>::ES;
+        let xs: Vec<u32> = $xs;
+        let nx = xs.len() as u64;
+        let len: usize = $len;
+        let parts: usize = $k;
+        let base = fingerprint(n, es, len * parts);
+        $v.push(CellDef::new(
+            "C18",
+            format!("{}/poly{}[{}]#zeros", <$P as Fx>::NAME, $kind, $k),
+            Space::func((1u64 << (len * parts)) * nx, format!("every subset of the {} coefficient parts zeroed x {} x values", len * parts, nx), move |i| ((i / nx) as u128) << 32 | xs[(i % nx) as usize] as u128),
+            move |key| {
+                let x = key as u32;
+                let mask = (key >> 32) as u64;
+                let c: Vec<u32> = (0..len * parts).map(|j| if (mask >> j) & 1 == 1 { 0 } else { base[j] }).collect();
+                let cvec: Vec<Vec<u32>> = (0..len).map(|j| c[j * parts..(j + 1) * parts].to_vec()).collect();
+                let (want, nt) = ref_poly(n, es, $kind, x, &cvec);
+                let got = guard(|| poly_call!(a, $P, $len, $m, $k, x, c));
+                Out::cmp(got, want as u128, nt)
+            },
+        ));
+    }};
+}
+
+macro_rules! array_zeros {
+    ($v:ident, $P:ty, $xs:expr) => {
+        poly_zeros_cell_a!($v, $P, 2, poly1, "1", 2, $xs);
+        poly_zeros_cell_a!($v, $P, 3, poly2, "2", 2, $xs);
+        poly_zeros_cell_a!($v, $P, 4, poly3, "3", 2, $xs);
+        poly_zeros_cell_a!($v, $P, 5, poly4, "4", 2, $xs);
+        poly_zeros_cell_a!($v, $P, 4, poly3a, "3a", 2, $xs);
+        poly_zeros_cell_a!($v, $P, 5, poly4a, "4a", 2, $xs);
+        poly_zeros_cell_a!($v, $P, 6, poly5, "5", 2, $xs);
+        poly_zeros_cell_a!($v, $P, 7, poly6, "6", 2, $xs);
+        poly_zeros_cell_a!($v, $P, 8, poly7, "7", 2, $xs);
+        poly_zeros_cell_a!($v, $P, 9, poly8, "8", 2, $xs);
+        poly_zeros_cell_a!($v, $P, 2, poly1, "1", 4, $xs);
+        poly_zeros_cell_a!($v, $P, 3, poly2, "2", 4, $xs);
+        poly_zeros_cell_a!($v, $P, 4, poly3, "3", 4, $xs);
+        poly_zeros_cell_a!($v, $P, 5, poly4, "4", 3, $xs);
+        poly_zeros_cell_a!($v, $P, 6, poly5, "5", 3, $xs);
+    };
+}
+
 macro_rules! all_degrees_zeros {
     ($v:ident, $P:ty, $xs:expr) => {
         poly_zeros_cell!($v, $P, 2, poly1, "1", $xs);
@@ -373,6 +420,20 @@ macro_rules! array_small {
         poly_cell!($v, a, $P, 4, poly3a, "3a", $k, $xs, $ca, false);
         poly_cell!($v, a, $P, 7, poly6, "6", $k, $xs, $ca, false);
         poly_cell!($v, a, $P, 10, poly9, "9", $k, $xs, $ca, false);
+        // the remaining degrees
+        poly_cell!($v, a, $P, 5, poly4a, "4a", $k, $xs, $ca, false);
+        poly_cell!($v, a, $P, 6, poly5, "5", $k, $xs, $ca, false);
+        poly_cell!($v, a, $P, 8, poly7, "7", $k, $xs, $ca, false);
+        poly_cell!($v, a, $P, 9, poly8, "8", $k, $xs, $ca, false);
+        poly_cell!($v, a, $P, 11, poly10, "10", $k, $xs, $ca, false);
+        poly_cell!($v, a, $P, 12, poly11, "11", $k, $xs, $ca, false);
+        poly_cell!($v, a, $P, 13, poly12, "12", $k, $xs, $ca, false);
+        poly_cell!($v, a, $P, 14, poly13, "13", $k, $xs, $ca, false);
+        poly_cell!($v, a, $P, 15, poly14, "14", $k, $xs, $ca, false);
+        poly_cell!($v, a, $P, 16, poly15, "15", $k, $xs, $ca, false);
+        poly_cell!($v, a, $P, 17, poly16, "16", $k, $xs, $ca, false);
+        poly_cell!($v, a, $P, 18, poly17, "17", $k, $xs, $ca, false);
+        poly_cell!($v, a, $P, 19, poly18, "18", $k, $xs, $ca, false);
     };
 }
 
@@ -406,6 +467,9 @@ pub fn cells(thorough: bool) -> Vec<CellDef> {
         all_degrees_zeros!(v, P8E0, xz(8));
         all_degrees_zeros!(v, P16E1, xz(16));
         all_degrees_zeros!(v, P32E2, xz(32));
+        array_zeros!(v, P8E0, xz(8));
+        array_zeros!(v, P16E1, xz(16));
+        array_zeros!(v, P32E2, xz(32));
     }
     // array coefficient types [P; 1..4]
     array_small!(v, P8E0, 1, x8.clone(), c8.clone());
